@@ -1092,7 +1092,7 @@ func c13CheckAnnotation(h *vHarness, pod *corev1.Pod) {
 // c13OracleFirst: the property's clauses on one admission, `before` = the pod as submitted, `pod` = the pod that
 // came out (in memory after the two steps, or as stored by the API server after Handle + JSON patch).  pfx prefixes
 // the histogram tags.  Returns whether every applied profile is simple (hypothesis of readmission_idempotent).
-func c13OracleFirst(h *vHarness, before, pod *corev1.Pod, profiles []c13Profile, create, gate bool, rnd int, pfx string) bool {
+func c13OracleFirst(h *vHarness, before, pod *corev1.Pod, profiles []c13Profile, create, gate bool, rnd int, pfx string, summary bool) bool {
 	anyMatched, anySkipRes, appliedSimple, resPatched := false, false, true, false
 	applied := 0
 	// a profile whose selector cannot be evaluated: the unchanged tree keeps it (the model mirrors that), but the property
@@ -1182,7 +1182,7 @@ func c13OracleFirst(h *vHarness, before, pod *corev1.Pod, profiles []c13Profile,
 		}
 		c13CheckList(h, "overhead", tier, before.Spec.Overhead, pod.Spec.Overhead, false, nil)
 	}
-	if create {
+	if create && summary { // summary = the summary-annotation step is not switched off by its feature gate
 		c13CheckAnnotation(h, pod)
 	}
 	return appliedSimple
@@ -1194,6 +1194,7 @@ type c13Env struct {
 	sub      int // index into c13SubResources (0 = none)
 	res      int // index into c13Resources_ (0 = pods)
 	noObject bool
+	noExt    bool // feature gate DisableExtendedResourceSpec during Handle
 }
 
 var c13Operations = []admissionv1.Operation{admissionv1.Create, admissionv1.Update, admissionv1.Delete, admissionv1.Connect}
@@ -1202,8 +1203,12 @@ var c13ResourceNames = []string{"pods", "podtemplates", "deployments", ""}
 
 // c13ViaHandle sends the raw JSON through PodMutatingHandler.Handle, applies the response's JSON patch to the
 // submitted JSON (what the API server does), decodes the result and evaluates the property on THAT pod.
-func c13ViaHandle(h *vHarness, handler *PodMutatingHandler, raw []byte, submitted *corev1.Pod, profiles []c13Profile, gate bool, rnd int, env c13Env) {
-	h.Op("handle %d %d %d %d %d %d", env.op, env.sub, vB(env.res == 0), vB(!env.noObject), vB(gate), rnd)
+func c13ViaHandle(h *vHarness, t *testing.T, handler *PodMutatingHandler, raw []byte, submitted *corev1.Pod, profiles []c13Profile, gate bool, rnd int, env c13Env) {
+	h.Op("handle %d %d %d %d %d %d %d", env.op, env.sub, vB(env.res == 0), vB(!env.noObject), vB(gate), vB(env.noExt), rnd)
+	if env.noExt {
+		defer feature.SetFeatureGateDuringTest(t, feature.DefaultMutableFeatureGate, features.DisableExtendedResourceSpec, true)()
+		h.Tag("handle:gate-no-summary-annotation")
+	}
 	req := admission.Request{AdmissionRequest: admissionv1.AdmissionRequest{
 		Resource:    metav1.GroupVersionResource{Group: "", Version: "v1", Resource: c13ResourceNames[env.res]},
 		SubResource: c13SubResources[env.sub], Namespace: "default", Name: "p",
@@ -1254,11 +1259,11 @@ func c13ViaHandle(h *vHarness, handler *PodMutatingHandler, raw []byte, submitte
 	if env.op == 0 && env.sub == 0 && env.res == 0 {
 		// the request is a pod CREATE: the stored pod must obey the translation clauses
 		c13Fp = "C13:stored-"
-		appliedSimple := c13OracleFirst(h, submitted, stored, profiles, true, gate, rnd, "stored:")
+		appliedSimple := c13OracleFirst(h, submitted, stored, profiles, true, gate, rnd, "stored:", !env.noExt)
 		c13Fp = "C13:"
 		// ---- admitting the result again changes nothing, as the user sees it: the stored object submitted once more
 		// (same profiles, same draw) is stored as it is (theorem handle_readmission_idempotent; hypothesis AppliedSimple) ----
-		if appliedSimple {
+		if appliedSimple && !env.noExt {
 			req.Object.Raw = storedJSON
 			var resp2 admission.Response
 			if h.Guard(func() { resp2 = handler.Handle(context.TODO(), req) }) || !resp2.Allowed {
@@ -1323,7 +1328,7 @@ func c13RunMutatingCase(h *vHarness, t *testing.T, decoder admission.Decoder, po
 
 	// ---- through the entry point: PodMutatingHandler.Handle on the raw JSON, then the response's JSON patch applied
 	// to the submitted JSON = the object the API server stores and the user reads back ----
-	c13ViaHandle(h, handler, raw, submitted, profiles, gate, rnd, env)
+	c13ViaHandle(h, t, handler, raw, submitted, profiles, gate, rnd, env)
 	h.Op("pod 0 %s", c13EncPod(pod))
 	op := admissionv1.Create
 	if !create {
@@ -1395,7 +1400,7 @@ func c13RunMutatingCase(h *vHarness, t *testing.T, decoder admission.Decoder, po
 	if ok {
 		h.Tag("admit:ok")
 		// ---- property oracle on the first admission ----
-		appliedSimple := c13OracleFirst(h, before, pod, profiles, create, gate, rnd, "")
+		appliedSimple := c13OracleFirst(h, before, pod, profiles, create, gate, rnd, "", true)
 		// ---- admitting the result again changes nothing ----
 		// (demanded exactly under the hypothesis of theorem readmission_idempotent: every applied
 		// profile is simple; label suffixes / key mappings / resource patches are not idempotent by design)
@@ -1451,6 +1456,7 @@ func TestVerifC13Mutating(t *testing.T) {
 		if r.Chance(1, 60) {
 			env.noObject = true
 		}
+		env.noExt = r.Chance(1, 20)
 		c13RunMutatingCase(h, t, decoder, pod, profiles, create, gate, rnd, env)
 		h.End()
 	}
@@ -1556,7 +1562,8 @@ func TestVerifC13MutatingExhaustive(t *testing.T) {
 		for sub := 0; sub < len(c13SubResources); sub++ {
 			for res := 0; res < len(c13ResourceNames); res++ {
 				for _, noObj := range []bool{false, true} {
-					for _, pi := range []int{0, 1, 4} {
+					for _, pix := range []int{0, 1, 4, 10, 11, 14} { // + 10: the summary-annotation step switched off by its gate
+						pi, noExt := pix%10, pix >= 10
 						r := h.Begin(idx)
 						idx++
 						if r == nil {
@@ -1570,14 +1577,14 @@ func TestVerifC13MutatingExhaustive(t *testing.T) {
 							Limits:   corev1.ResourceList{"cpu": resource.MustParse("1"), "memory": resource.MustParse("1Gi")}}}}
 						profiles := append([]c13Profile(nil), profileSets[pi]...)
 						h.Tag(fmt.Sprintf("x:envelope:profileset:%d", pi))
-						c13RunMutatingCase(h, t, decoder, pod, profiles, op == 0, false, 0, c13Env{op: op, sub: sub, res: res, noObject: noObj})
+						c13RunMutatingCase(h, t, decoder, pod, profiles, op == 0, false, 0, c13Env{op: op, sub: sub, res: res, noObject: noObj, noExt: noExt})
 						h.End()
 					}
 				}
 			}
 		}
 	}
-	h.Extra("exhaustive", fmt.Sprintf("7 class sources x 192 container shapes x 2 overheads x 8 profile sets: %d cases; + envelope: 4 operations x 6 sub-resources x 4 resources x object present x 3 profile sets: %d cases",
+	h.Extra("exhaustive", fmt.Sprintf("7 class sources x 192 container shapes x 2 overheads x 8 profile sets: %d cases; + envelope: 4 operations x 6 sub-resources x 4 resources x object present x 3 profile sets x summary-annotation gate: %d cases",
 		nShapes, idx-nShapes))
 	h.Close("exhaustive enumeration: one container over every presence pattern of requests/limits cpu, memory, batch-cpu and requests mid-memory " +
 		"(sub-milli and milli cpu), x class source (priority value per range, QoS BE / LS, Kubernetes default) x overhead x {no profile, simple " +
